@@ -166,32 +166,36 @@ const keyGatedRoot = "F-13f-gated-root-operation-type"
 
 // classify attaches a finding key to a failing case (narrow predicates; "" = unknown failure).
 //
-// F-13f: the schema's mutation root type itself carries required features that F does not enable,
-// the request is a mutation or asks for `mutationType`, the two responses differ — and the
-// counterfactual holds: the very same case with the requirement taken off the root type (nothing
-// else changed) does not fail. A failure that survives the counterfactual is a different failure.
+// F-13f: the schema's mutation (or subscription) root type itself carries required features that F
+// does not enable, the request is an operation of that kind or asks for `mutationType` /
+// `subscriptionType`, the responses differ (or the root's resolver ran) — and the counterfactual
+// holds: the very same case with the requirement taken off the root type (nothing else changed)
+// does not fail. A failure that survives the counterfactual is a different failure.
 func classify(c *Case, what string) string {
-	if c.Spec == nil || c.Spec.Mutation == "" || c.Via != "" {
+	if c.Spec == nil || c.Via != "" {
 		return ""
 	}
-	m := c.Spec.find(c.Spec.Mutation)
-	if m == nil || subset(m.Req, fset(c.F)) {
+	roots := gatedRoots(c.Spec, c.F)
+	if len(roots) == 0 {
 		return ""
 	}
 	text := c.Query.Text
 	if c.Doc != nil {
 		text = c.Doc.text()
 	}
-	isMutation := strings.HasPrefix(strings.TrimSpace(text), "mutation")
+	trimmed := strings.TrimSpace(text)
+	isRootOp := strings.HasPrefix(trimmed, "mutation") || strings.HasPrefix(trimmed, "subscription")
 	switch {
-	case strings.HasPrefix(what, "response differs") && (isMutation || strings.Contains(text, "mutationType")):
-	case strings.HasPrefix(what, "gated resolver invoked") && isMutation:
+	case strings.HasPrefix(what, "response differs") && (isRootOp || strings.Contains(text, "mutationType") || strings.Contains(text, "subscriptionType")):
+	case strings.HasPrefix(what, "gated resolver invoked") && isRootOp:
 	default:
 		return ""
 	}
 	cf := *c
 	cf.Spec = c.Spec.clone()
-	cf.Spec.find(cf.Spec.Mutation).Req = nil
+	for _, n := range roots {
+		cf.Spec.find(n).Req = nil
+	}
 	if failsSame(&cf) != "" {
 		return ""
 	}
@@ -261,6 +265,38 @@ func shrink(c *Case, what string) (*Case, string) {
 			cand := *c
 			cand.Spec = c.Spec.clone()
 			cand.Spec.Types = append(cand.Spec.Types[:i:i], cand.Spec.Types[i+1:]...)
+			if try(&cand) {
+				changed = true
+			}
+		}
+		// drop roots, connection interfaces
+		if c.Spec.Mutation != "" {
+			cand := *c
+			cand.Spec = c.Spec.clone()
+			cand.Spec.Mutation = ""
+			if try(&cand) {
+				changed = true
+			}
+		}
+		if c.Spec.Subscription != "" {
+			cand := *c
+			cand.Spec = c.Spec.clone()
+			cand.Spec.Subscription = ""
+			if try(&cand) {
+				changed = true
+			}
+		}
+		for i := len(c.Spec.ConnIfaces) - 1; i >= 0; i-- {
+			cand := *c
+			cand.Spec = c.Spec.clone()
+			cand.Spec.ConnIfaces = append(cand.Spec.ConnIfaces[:i:i], cand.Spec.ConnIfaces[i+1:]...)
+			for ti := range cand.Spec.Types {
+				for fi := range cand.Spec.Types[ti].Fields {
+					if cn := cand.Spec.Types[ti].Fields[fi].Conn; cn != nil {
+						cn.Impl = nil
+					}
+				}
+			}
 			if try(&cand) {
 				changed = true
 			}
@@ -490,7 +526,7 @@ func (h *harness) checkSpec(spec *Spec, r *hx.Rand, nDocs int, sample bool) {
 		rep := h.ask(hx.N("schema", specSexp(origX)).String())
 		modelOK := strings.HasPrefix(rep, "(accepted true")
 		ok := modelOK == realOK && (strings.HasPrefix(rep, "(accepted "))
-		goRoots := len(spec.find(spec.Query).Req) == 0 && (spec.Mutation == "" || spec.find(spec.Mutation) == nil || len(spec.find(spec.Mutation).Req) == 0)
+		goRoots := len(spec.find(spec.Query).Req) == 0 && len(gatedRoots(spec, nil)) == 0
 		if realOK && strings.Contains(rep, "rootsUngated") != goRoots {
 			ok = false
 		}
@@ -556,7 +592,7 @@ func (h *harness) checkSpec(spec *Spec, r *hx.Rand, nDocs int, sample bool) {
 				if err != nil {
 					d = err.Error()
 				} else {
-					rv = append(rv, realResolveCandidates(env.full, env.fullW, F, origX, origX)...)
+					rv = append(rv, realResolveCandidates(env.full, env.fullW, F, origX, origX, spec)...)
 					d = diffLines(observableRC(mv, rv), rv)
 				}
 				run.Oblige(obView, "correspondence", len(mv), d == "", d)
@@ -573,7 +609,7 @@ func (h *harness) checkSpec(spec *Spec, r *hx.Rand, nDocs int, sample bool) {
 					if err != nil {
 						d = err.Error()
 					} else {
-						rv2 = append(rv2, realResolveCandidates(env.erased, env.erasedW, env.all, origX, expand(env.erasedSp))...)
+						rv2 = append(rv2, realResolveCandidates(env.erased, env.erasedW, env.all, origX, expand(env.erasedSp), spec)...)
 						d = diffLines(observableRC(filterGF(mv, env.erasedSp), rv2), rv2)
 					}
 					run.Oblige(obViewErase, "correspondence", len(mv), d == "", d)
@@ -627,6 +663,7 @@ func (h *harness) checkSpec(spec *Spec, r *hx.Rand, nDocs int, sample bool) {
 				}
 			}
 			if q.Kind == "doc" {
+				run.Count("doc:op:" + q.doc.Op)
 				switch {
 				case a.Panic != "":
 					run.Count("doc:panic-both")
@@ -676,13 +713,13 @@ func (h *harness) checkSpec(spec *Spec, r *hx.Rand, nDocs int, sample bool) {
 func observableRC(model, real []string) []string {
 	seen := map[string]bool{}
 	for _, l := range real {
-		if strings.HasPrefix(l, "rc ") {
-			seen[strings.Fields(l)[1]] = true
+		if f := strings.Fields(l); len(f) >= 3 && f[0] == "rc" {
+			seen[f[1]+" "+f[2]] = true
 		}
 	}
 	var out []string
 	for _, l := range model {
-		if strings.HasPrefix(l, "rc ") && !seen[strings.Fields(l)[1]] {
+		if f := strings.Fields(l); len(f) >= 3 && f[0] == "rc" && !seen[f[1]+" "+f[2]] {
 			continue
 		}
 		out = append(out, l)
@@ -690,13 +727,21 @@ func observableRC(model, real []string) []string {
 	return out
 }
 
-func rootHidden(spec *Spec, F []string) bool {
-	if spec.Mutation == "" {
-		return false
+// gatedRoots lists the mutation / subscription root types that carry required features F does not enable.
+func gatedRoots(spec *Spec, F []string) []string {
+	var out []string
+	for _, n := range []string{spec.Mutation, spec.Subscription} {
+		if n == "" {
+			continue
+		}
+		if t := spec.find(n); t != nil && !subset(t.Req, fset(F)) {
+			out = append(out, n)
+		}
 	}
-	m := spec.find(spec.Mutation)
-	return m != nil && !subset(m.Req, fset(F))
+	return out
 }
+
+func rootHidden(spec *Spec, F []string) bool { return len(gatedRoots(spec, F)) > 0 }
 
 // filterGF drops the GetField lines of types that do not exist in the erased schema (there is no
 // object to call GetField on).
@@ -719,9 +764,35 @@ func filterGF(lines []string, erased *Spec) []string {
 // the implementation (all probes); if it fails there, that is the concrete failing input, otherwise
 // the theorems no longer speak about this code.
 func (h *harness) viewMismatch(spec *Spec, F []string, what string, env *pairEnv, probes []query) {
-	for qi := range probes {
-		if w, _, _ := env.differential(&probes[qi], true, 1); w != "" {
-			h.reportOracle(&Case{Spec: spec.clone(), F: F, Query: probes[qi], Respect: true, Seed: 1}, w)
+	// targeted inputs first: documents that exercise exactly the accessor lines that differ
+	var targeted []query
+	for _, part := range strings.Split(what, " | ") {
+		f := strings.Fields(strings.TrimLeft(part, "-+ "))
+		if len(f) < 2 {
+			continue
+		}
+		name := strings.TrimSuffix(f[1], ":")
+		switch f[0] {
+		case "lk", "type":
+			targeted = append(targeted,
+				query{Kind: "doc", Label: "targeted", Text: fmt.Sprintf("query Q($v: %s) { __typename }", name)},
+				query{Kind: "doc", Label: "targeted", Text: fmt.Sprintf("{ __typename ...X } fragment X on %s { __typename }", name)},
+				query{Kind: "probe", Label: "type:" + name, Text: typeProbe(name)})
+		case "sp":
+			if len(f) >= 3 {
+				targeted = append(targeted, query{Kind: "doc", Label: "targeted", Text: fmt.Sprintf("{ __typename } fragment X on %s { ... on %s { __typename } }", name, strings.TrimSuffix(f[2], ":"))})
+			}
+		case "gf":
+			if i := strings.IndexByte(name, '.'); i > 0 {
+				targeted = append(targeted, query{Kind: "doc", Label: "targeted", Text: fmt.Sprintf("{ __typename ...X } fragment X on %s { r1: %s }", name[:i], name[i+1:])},
+					query{Kind: "doc", Label: "targeted", Text: fmt.Sprintf("{ __typename ...X } fragment X on %s { r1: %s { __typename } }", name[:i], name[i+1:])})
+			}
+		}
+	}
+	all := append(targeted, probes...)
+	for qi := range all {
+		if w, _, _ := env.differential(&all[qi], true, 1); w != "" {
+			h.reportOracle(&Case{Spec: spec.clone(), F: F, Query: all[qi], Respect: true, Seed: 1}, w)
 			return
 		}
 	}
@@ -767,7 +838,7 @@ func parseSpecSexp(s string) (*Spec, error) {
 	if err != nil {
 		return nil, err
 	}
-	if !x.IsList || len(x.List) < 3 || x.List[0].Atom != "schema" {
+	if !x.IsList || len(x.List) < 4 || x.List[0].Atom != "schema" {
 		return nil, fmt.Errorf("not a schema: %.100s", s)
 	}
 	atoms := func(y hx.Sexp) []string {
@@ -786,8 +857,8 @@ func parseSpecSexp(s string) (*Spec, error) {
 		}
 		return out
 	}
-	sp := &Spec{Query: x.List[1].Atom, Mutation: x.List[2].Atom}
-	for _, t := range x.List[3:] {
+	sp := &Spec{Query: x.List[1].Atom, Mutation: x.List[2].Atom, Subscription: x.List[3].Atom}
+	for _, t := range x.List[4:] {
 		if len(t.List) != 8 {
 			return nil, fmt.Errorf("bad type %s", t.String())
 		}
@@ -965,15 +1036,15 @@ func main() {
 		h.checkSpec(spec, run.Rand.Fork(), run.Scale(6, 30), false)
 		run.Count("hand-written-schema")
 	}
-	n := run.Scale(260, 6000)
-	nDocs := run.Scale(10, 24)
+	n := run.Scale(200, 3000)
+	nDocs := run.Scale(10, 20)
 	for i := 0; i < n; i++ {
 		r := run.Rand.Fork()
 		spec := genSpec(r)
 		h.checkSpec(spec, r, nDocs, i < 40)
 	}
 	// the same property through the application layer (feature-set plumbing of api.go / graphqlws.go)
-	nAPI, nWS := run.Scale(30, 300), run.Scale(6, 40)
+	nAPI, nWS := run.Scale(30, 200), run.Scale(6, 30)
 	for i, tries := 0, 0; i < nAPI && tries < nAPI*30; tries++ {
 		r := run.Rand.Fork()
 		spec := genSpec(r)
